@@ -328,3 +328,18 @@ Proof.
     pose proof (rp_files m fs R) as Hf. rewrite Forall_forall in Hf. destruct (Hf _ Hin) as (W & Hfirst & _).
     exists c. split; [|split; assumption]. apply (rep_actor m fs (g, c) R Hin).
 Qed.
+
+(** upper bound of the split-offs that lie INSIDE a file (raised by a snapshot pointer): a delete-from
+    at or above it never cuts a file below its split-off *)
+Definition floor_ok (fl : N) (fs : list mfile) : Prop :=
+  Forall (fun f => c_first (snd f) < c_split (snd f) -> c_split (snd f) <= fl) fs.
+
+Lemma floor_ok_cut (fs : list mfile) fl k a :
+  Forall file_ok fs -> floor_ok fl fs -> files_first fs = Some a -> a <= k -> fl <= k -> k < U64MAX -> cut_ok fs k.
+Proof.
+  intros Hok Hfl Ha Hak Hflk Hk. split; [exists a; auto|]. split; [exact Hk|].
+  apply Forall_forall. intros [g c] Hin Hs. cbn [fst snd] in *.
+  rewrite Forall_forall in Hok, Hfl. destruct (Hok _ Hin) as (W & Hfirst & _). specialize (Hfl _ Hin). cbn [snd] in Hfl.
+  pose proof (wf_split c W). destruct (N.eq_dec (c_first c) (c_split c)) as [E|E]; [lia|].
+  assert (c_first c < c_split c) by lia. specialize (Hfl H0). lia.
+Qed.
